@@ -90,9 +90,12 @@ def mc_layout(ck, max_ops, pages=(1, 2, 3)):
     for mp in pages:
         c = dict(base, MaxPage=mp)
         r = model_check("MC_Layout", c, ["TypeOK", "FooterTruthful", "PagesLegal", "Framing", "EmptyWriteInert", "FaultReported"],
-                        workers=8, tag="mclayout%d" % mp)
+                        workers=8, tag="mclayout%d" % mp, coverage=(mp == pages[0]))
         st += r["distinct"]
         tr += r["states"]
+        if "actions" in r:
+            ck.cov["spec_action_coverage"] = r["actions"]
+            ck.cov["coverage_zero_actions"] = sorted(a for a, n in r["actions"].items() if n == 0)
     neg = []
     for name, sw in (("L1", {"EmptyWriteEmitsPages": "TRUE", "FooterSkipsDroppedBytes": "TRUE"}), ("L2", {"FooterCountsAddedRows": "TRUE"})):
         c = dict(base, MaxPage=2, MaxOps=6)
@@ -445,8 +448,10 @@ LAYOUT_MULTI = (2, lambda k: "a" * (k - k // 2) + "w" + "a" * (k // 2) + "w")
 def mc_reader(ck, prop_inv, neg_switch, neg_inv):
     base = {"NRowGroups": 2, "NCols": 2, "PagesPerChunk": 2, "SingleReadPerPage": "FALSE", "IgnoreReadError": "FALSE",
             "TrustFooterOnly": "FALSE", "AcceptUnsupported": "FALSE"}
-    r = model_check("MC_Reader", base, prop_inv, workers=8, tag="mcreader")
+    r = model_check("MC_Reader", base, prop_inv, workers=8, tag="mcreader", coverage=True)
     ck.cov["states"], ck.cov["transitions"] = r["distinct"], r["states"]
+    ck.cov["spec_action_coverage"] = r["actions"]
+    ck.cov["coverage_zero_actions"] = sorted(a for a, n in r["actions"].items() if n == 0)
     c = dict(base)
     c[neg_switch] = "TRUE"
     model_check("MC_Reader", c, [neg_inv], tag="mcreaderneg", expect_violation=neg_inv)
@@ -476,6 +481,7 @@ def c08():
                 if e["mode"] != "plain":
                     d += 1
     ck.cov["evaluations"], ck.cov["distinct_nontrivial"] = n, d
+    ck.cov["reader_runs_judged"] = n
     ck.cov["rule"] = ("for each file (schemas of F x {one row group, two row groups with pages of 2} x 3 codecs): fixed read chunk sizes 1..17, 64, 4096; "
                       "data returned together with io.EOF; for EVERY Read call k of the unfragmented run, only call k is short (1 byte; half); seeded "
                       "random short reads; non-trivial = any fragmenting source; each (file, pattern) is distinct by construction")
@@ -483,6 +489,7 @@ def c08():
     ck.sample({"file": ok[0].key, "pattern": "only Read call k returns 1 byte, for every k"})
     ck.sample({"file": ok[-1].key, "pattern": "chunk=7"})
     judge_programs(ck, ok, ["C08", "HARNESS"], "c08", describe=history_key_cfg)
+    ck.cov["traces_validated_against_impl"] = n      # every reader run is one judged behaviour
     ck.assumptions += ["sources obey the io.Reader contract: 1 <= n <= len(p) bytes per call, optionally n > 0 together with io.EOF at the end"]
     ck.finish()
 
@@ -515,6 +522,7 @@ def c10():
     ck.cov["exhaustive"] = True
     ck.sample({"file": ok[0].key, "fault": "Read/Seek call k returns (0, err), every k"})
     judge_programs(ck, ok, ["C10", "HARNESS"], "c10", describe=history_key_cfg)
+    ck.cov["traces_validated_against_impl"] = n      # every reader run is one judged behaviour
     ck.assumptions += ["acceptable outcomes: constructor error, or Error() != nil after Next returned false, or every delivered row correct and none missing"]
     ck.finish()
 
@@ -539,6 +547,7 @@ def c11():
     ck.cov["exhaustive"] = True
     ck.sample({"file": ok[0].key, "prefixes": "0 .. len-1"})
     judge_programs(ck, ok, ["C11", "HARNESS"], "c11", describe=history_key_cfg)
+    ck.cov["traces_validated_against_impl"] = n      # every reader run is one judged behaviour
     ck.assumptions += ["'accepted' = no constructor error and Error() == nil once Next returned false"]
     ck.finish()
 
@@ -576,6 +585,7 @@ def c09():
     ck.cov["exhaustive"] = True
     ck.sample({"workload": ok[0].key, "fault": "k-th sink Write returns (0, err), every k"})
     judge_programs(ck, ok, ["C09", "HARNESS"], "c09", describe=history_key_cfg)
+    ck.cov["traces_validated_against_impl"] = sum(1 for p in ok for e in p.events if e.get("ev") == "SinkRun")   # one writer run per fault position
     ck.assumptions += ["only the call during which the sink failed is constrained; partial writes without an error are outside the io.Writer contract"]
     ck.finish()
 
@@ -1265,8 +1275,10 @@ def c13():
     ck = Check("C13", "model_checking")
     q = ck.quick()
     base = {"Inst": "{1, 2}", "NPages": 3, "NBuf": 3, "PutBeforeBodyWrite": "FALSE", "MaxSwitches": 1000}
-    r = model_check("MC_Pool", base, ["TypeOK", "NonInterference", "NoSharedOwnership"], workers=8, tag="mcpool")
+    r = model_check("MC_Pool", base, ["TypeOK", "NonInterference", "NoSharedOwnership"], workers=8, tag="mcpool", coverage=True)
     st, tr = r["distinct"], r["states"]
+    ck.cov["spec_action_coverage"] = r["actions"]
+    ck.cov["coverage_zero_actions"] = sorted(a for a, n in r["actions"].items() if n == 0)
     if not q:
         r = model_check("MC_Pool", dict(base, Inst="{1, 2, 3}", NPages=2, MaxSwitches=4), ["TypeOK", "NonInterference", "NoSharedOwnership"],
                         workers=8, tag="mcpool3", timeout=2400)
